@@ -114,7 +114,9 @@ func (r ResolveResult) Targets(network string) iter.Seq[Target] {
 			}
 			alpn := h.ALPN
 			if !h.NoDefaultALPN {
-				alpn = append(alpn, "http/1.1")
+				// The record may be shared with the cache and other results:
+				// never append in place.
+				alpn = append(slices.Clip(alpn), "http/1.1")
 			}
 			if h.Target != "" {
 				for _, a := range r.Additional[h.Target] {
